@@ -37,6 +37,27 @@ class S(explore.Spec):
   follow_errors = True
   readd_ops = True
 
+  def key(self, g, env):
+    k = super().key(g, env)
+    if getattr(self, "share_ops", False):
+      # two lines holding the VERY same value object are another state than
+      # two lines holding equal values (the observation cannot tell them
+      # apart, later operations can)
+      seen, shared = set(), 0
+      try:
+        for l in g.lines:
+          if observe.rt_of(l) in ("E", "G"):
+            for fn in ("sid1", "sid2"):
+              v = l.get(fn)
+              if isinstance(v, gfapy.OrientedLine):
+                if id(v) in seen:
+                  shared += 1
+                seen.add(id(v))
+      except Exception:
+        pass
+      k += ":shared{}".format(shared)
+    return k
+
   def extra_ops(self, g, env, hist):
     out = []
     try:
